@@ -72,6 +72,16 @@ Theorem C35_hull_oracle_sound : forall pts hull,
   (pts <> [] -> hull <> []).
 Proof. exact hull_ok_sound. Qed.
 
+(* (6) the oracle applied to the implementation's simplification is sound: what it accepts is
+   a subsequence of the input with the same first point in which every input point is kept or
+   within (eps4/4 + 1/64) of the segment between two output points (exact squared distances) *)
+Theorem C35_simplify_oracle_sound : forall closed pts eps4 out,
+  simplify_ok closed pts eps4 out = true ->
+  subseq out pts /\ hd_error out = hd_error pts /\
+  forall p, In p pts ->
+    In p out \/ exists a b, In a out /\ In b out /\ near_segment (16 * eps4 + 1) a b p = true.
+Proof. exact simplify_ok_sound. Qed.
+
 (* non-vacuity: a polyline that is simplified (integer distances squared as D), the F56
    input with exact keys, the oracle rejects the pre-fix hull of that input *)
 Example C35_nonvacuous :
